@@ -18,7 +18,7 @@ RULE = ("plan = left list + right list (0..7 items each quick / 0..15 thorough; 
         "Distinct = plan hash.")
 CASES = {"quick": 3000, "thorough": 16000}
 
-KV = {"i": [None, 0, 1, 2], "s": [None, "x", "y"]}
+KV = {"i": [None, 0, 1, 2, 0, 1, -1, -2], "s": [None, "x", "y"]}      # hash(-1) == hash(-2) in CPython
 
 
 @st.composite
@@ -53,6 +53,9 @@ def _plan(draw, max_items):
             it["q"] = draw(st.sampled_from([None, 2, "w"]))
         if "_rid" in it and draw(st.integers(0, 3)) == 0:
             it["p"] = draw(st.sampled_from([None, 7, "z"]))     # collides with a left payload name
+        if "_rid" in it and draw(st.integers(0, 3)) == 0:
+            # an entry whose name is contained in (or contains) a key name
+            it[draw(st.sampled_from(["k", "r", "0", "", "k0x", "1"]))] = draw(st.sampled_from([None, 3, "u"]))
         right.append(it)
     plan = {"op": op, "by": by, "left": left, "right": right}
     if op != "aggregate" and nl and draw(st.integers(0, 4)) == 0:
